@@ -8,7 +8,8 @@ for d in sorted(glob.glob('/verif/seeded/C*')):
     m=json.load(open(mp))
     res=m['check_result']
     status='**caught**' if not res.startswith('MISSED') and not res.startswith('pending') else ('**missed, then caught after strengthening**' if 'after' in res or 'now' in res else '**missed**')
-    rows.append("| %s | %s (needs: %s) | %s — %s |"%(m['property'],m['change'].replace('|','\\|'),m['needs_to_manifest'].replace('|','\\|'),status,res.replace('|','\\|')))
+    res=re.sub(r'^caught — ','',res)
+    rows.append("| %s | %s (needs: %s) | %s — %s |"%(os.path.basename(d),m['change'].replace('|','\\|'),m['needs_to_manifest'].replace('|','\\|'),status,res.replace('|','\\|')))
 table="| seed | change (what it needs in order to manifest) | result |\n|---|---|---|\n"+"\n".join(rows)+"\n"
 p='/verif/DESIGN.md'; s=open(p).read()
 a=s.index('| seed | change'); b=s.index('### 7.2')
